@@ -1218,6 +1218,7 @@ func (pc *PeerConnection) SetRemoteDescription(desc SessionDescription) error {
 		sender.configureRTXAndFEC()
 	}
 
+	verifhook.Point("pc.srd.described")
 	var transceiver *RTPTransceiver
 	localTransceivers := append([]*RTPTransceiver{}, pc.GetTransceivers()...)
 	detectedPlanB := descriptionIsPlanB(pc.RemoteDescription(), pc.log)
@@ -1276,6 +1277,7 @@ func (pc *PeerConnection) SetRemoteDescription(desc SessionDescription) error {
 				pc.mu.Lock()
 				pc.addRTPTransceiver(transceiver)
 				pc.mu.Unlock()
+				verifhook.Point("pc.srd.published")
 
 			case direction == RTPTransceiverDirectionRecvonly:
 				if transceiver.Direction() == RTPTransceiverDirectionSendrecv {
@@ -1300,6 +1302,7 @@ func (pc *PeerConnection) SetRemoteDescription(desc SessionDescription) error {
 					return err
 				}
 			}
+			verifhook.Point("pc.srd.section")
 		}
 	}
 
@@ -1326,6 +1329,7 @@ func (pc *PeerConnection) SetRemoteDescription(desc SessionDescription) error {
 			return err
 		}
 	}
+	verifhook.Point("pc.srd.candidates")
 
 	currentTransceivers := append([]*RTPTransceiver{}, pc.GetTransceivers()...)
 
@@ -1340,6 +1344,7 @@ func (pc *PeerConnection) SetRemoteDescription(desc SessionDescription) error {
 				pc.startRTP(true, &desc, currentTransceivers)
 			})
 		}
+		verifhook.Point("pc.srd.tail")
 
 		return nil
 	}
@@ -1370,6 +1375,7 @@ func (pc *PeerConnection) SetRemoteDescription(desc SessionDescription) error {
 
 		pc.configureRTPReceivers(false, &desc, currentTransceivers)
 	}
+	verifhook.Point("pc.srd.tail")
 
 	pc.ops.Enqueue(func() {
 		pc.startTransports(
